@@ -51,6 +51,14 @@ def _resolve_function(project, func, name_node):
         if imp and imp[0] == "symbol":
             q = imp[1] + "." + imp[2]
             return project.funcs.get(q)
+        # a statement spliced in from a helper of another module: its global names are that module's
+        other = (getattr(func, "extern", None) or {}).get(d)
+        if other and other != modname:
+            if other + "." + d in project.funcs:
+                return project.funcs[other + "." + d]
+            imp = project.imports(other).get(d)
+            if imp and imp[0] == "symbol":
+                return project.funcs.get(imp[1] + "." + imp[2])
         return None
     head, rest = d.split(".", 1)
     if head == "self" and func.cls is not None and "." not in rest:
@@ -96,6 +104,64 @@ def flatten(project, func, keep=()):
         return func
 
 
+def class_methods_of(project, func, name_node):
+    """{method name: Func} of the project class named by *name_node* (as seen from *func*'s module), or None."""
+    d = dotted(name_node)
+    if d is None:
+        return None
+    modname = func.module.name
+    cands = []
+    if "." not in d:
+        cands.append(modname + "." + d)
+        imp = project.imports(modname).get(d)
+        if imp and imp[0] == "symbol":
+            cands.append(imp[1] + "." + imp[2])
+        # a function-level `from .mod import Cls`
+        for n in own_nodes(func.node):
+            if isinstance(n, ast.ImportFrom):
+                for a in n.names:
+                    if (a.asname or a.name) == d:
+                        base = modname.rsplit(".", n.level)[0] if n.level else None
+                        mod_ = (base + "." + n.module) if (base and n.module) else (n.module or base)
+                        if mod_:
+                            cands.append(mod_ + "." + a.name)
+    else:
+        head, rest = d.split(".", 1)
+        imp = project.imports(modname).get(head)
+        if imp and imp[0] == "module" and "." not in rest:
+            cands.append(imp[1] + "." + rest)
+    for q in cands:
+        try:
+            project.cls(q)
+        except Exception:
+            continue
+        ms = {g.name: g for g in project.py_funcs() if g.cls is not None and g.parent is None and g.qual.rsplit(".", 1)[0] == q}
+        return ms
+    return None
+
+
+def scalarized(project, func, only_worker_classes=True):
+    """*func* with its local helper objects (worker pools / groups) taken apart: see sa.objinline.  Cached per project."""
+    from sa import objinline
+    cache = sym.project_cache(project, "scalarized")
+    key = (func.qual, only_worker_classes, id(func.node))
+    if key in cache:
+        return cache[key][1]
+    starters = worker_starters(project) if only_worker_classes else None
+
+    def only(ms):
+        return starters is None or any(g.qual in starters for g in ms.values())
+    def cm_resolve(owner, call):
+        g = resolve_callee(project, owner, call)
+        return g if (g is not None and (starters is None or g.qual in starters)) else None
+    out = objinline.inline_generator_cms(project, func, cm_resolve)
+    out = objinline.scalarize(project, out, lambda node: class_methods_of(project, func, node), only=only)
+    if out is not func:
+        out = objinline.inline_local_closures(out)
+    cache[key] = (func, out)          # keep *func* alive: the key holds the id of its node
+    return out
+
+
 def discover_stages(project):
     """Every function containing ``<mp>.Process(target=F, args=(...))``."""
     stages = []
@@ -108,13 +174,19 @@ def discover_stages(project):
                 tg = [k.value for k in c.keywords if k.arg == "target"]
                 if tg and isinstance(tg[0], ast.Name) and tg[0].id in ps:
                     starters.add(g.qual)
+    pool_methods = set()         # methods of pool classes are analysed inside the functions that use the pool, not on their own
     for f in sorted(project.py_funcs(), key=lambda f: f.qual):
         if f.qual in starters:
+            continue
+        if f.cls is not None and f.name == "__init__" and any(callee_attr(c) == "Process" for c in own_calls(f.node)) \
+                and any(isinstance(k.value, ast.Name) and k.value.id in f.params() for c in own_calls(f.node) if callee_attr(c) == "Process" for k in c.keywords if k.arg == "target"):
             continue
         if starters and any((lambda t: t is not None and t.qual in starters)(resolve_callee(project, f, c)) for c in own_calls(f.node)):
             # splice the starter into its caller: the stage is the function that owns the queues and the shutdown
             from sa.model import inline_helpers
             f = inline_helpers(project, f, lambda owner, call: (lambda t: t if (t is not None and t.qual in starters) else None)(resolve_callee(project, owner, call)))
+        # a pool / group object that bundles start-up, hand-over and shutdown is taken apart into the function that uses it
+        f = scalarized(project, f)
         procs = [c for c in own_calls(f.node) if callee_attr(c) == "Process"
                  and any(k.arg == "target" for k in c.keywords)]
         if not procs:
